@@ -343,6 +343,7 @@ class Fn(object):
         self.cleanup = set()
         self.ipdom = {}
         self.nstmts = 0
+        self.debug_names = {}
 
     def parse(self):
         if self.parsed:
@@ -376,6 +377,10 @@ class Fn(object):
             if m and cur is None:
                 self.local_ty[int(m.group(1))] = m.group(2)
                 continue
+            if cur is None and t.startswith('debug '):
+                dm = re.match(r'^debug (\w+) => _(\d+);$', t)
+                if dm:
+                    self.debug_names.setdefault(dm.group(1), int(dm.group(2)))
             if cur is None and (t.startswith('debug ') or t.startswith('scope ') or t.startswith('let ')):
                 m = re.match(r'^let (?:mut )?_(\d+): (.*);$', t)
                 if m:
